@@ -218,19 +218,21 @@ Definition bitb (done b : N) : bool := negb (N.land done b =? 0)%N.
 (* ownership consistency of an object whose [owner] flag is [o] and, while uriMakeOwnerEngine /
    uriNormalizeSyntaxEngine are at work on a borrowed object, whose components named in the
    done-mask are already copies *)
-Record inv (o : bool) (done : N) (m : muri) : Prop := {
-  i_scheme : fld (o || bitb done B_SCHEME) (m_scheme m);
-  i_scheme_ne : o = false -> bitb done B_SCHEME = true -> nonempty (t_val (m_scheme m)) = true;
-  i_user : fld (o || bitb done B_USER) (m_userInfo m);
+Record inv6 (o bs bu bh bp bq bf : bool) (m : muri) : Prop := {
+  i_scheme : fld (o || bs) (m_scheme m);
+  i_scheme_ne : o = false -> bs = true -> nonempty (t_val (m_scheme m)) = true;
+  i_user : fld (o || bu) (m_userInfo m);
   i_host : match t_val (m_ipFuture m) with
-           | Some _ => t_blk (m_hostText m) = None /\ fld (o || bitb done B_HOST) (m_ipFuture m)
-                       /\ (o = false -> bitb done B_HOST = true -> nonempty (t_val (m_ipFuture m)) = true)
-           | None => t_blk (m_ipFuture m) = None /\ fld (o || bitb done B_HOST) (m_hostText m)
+           | Some _ => t_blk (m_hostText m) = None /\ fld (o || bh) (m_ipFuture m)
+                       /\ (o = false -> bh = true -> nonempty (t_val (m_ipFuture m)) = true)
+           | None => t_blk (m_ipFuture m) = None /\ fld (o || bh) (m_hostText m)
            end;
   i_port : fld o (m_portText m);
-  i_segs : Forall (sfld (o || bitb done B_PATH)) (m_segs m);
-  i_query : fld (o || bitb done B_QUERY) (m_query m);
-  i_frag : fld (o || bitb done B_FRAG) (m_fragment m) }.
+  i_segs : Forall (sfld (o || bp)) (m_segs m);
+  i_query : fld (o || bq) (m_query m);
+  i_frag : fld (o || bf) (m_fragment m) }.
+Definition inv (o : bool) (done : N) (m : muri) : Prop :=
+  inv6 o (bitb done B_SCHEME) (bitb done B_USER) (bitb done B_HOST) (bitb done B_PATH) (bitb done B_QUERY) (bitb done B_FRAG) m.
 
 Definition consistent (m : muri) : Prop := inv (m_owner m) 0 m.
 
@@ -336,7 +338,7 @@ Proof.
   assert (Cg : Forall (sfld o) (m_segs m)) by (destruct C as [_ _ _ _ _ a _ _]; rewrite orb_false_r in a; exact a).
   assert (Cq : fld o (m_query m)) by (destruct C as [_ _ _ _ _ _ a _]; rewrite orb_false_r in a; exact a).
   assert (Cf : fld o (m_fragment m)) by (destruct C as [_ _ _ _ _ _ _ a]; rewrite orb_false_r in a; exact a).
-  pose proof (i_host _ _ _ C) as Ch. rewrite orb_false_r in Ch.
+  pose proof (i_host _ _ _ _ _ _ _ _ C) as Ch. rewrite orb_false_r in Ch.
   set (s1 := free_text o (m_scheme m) s) in *.
   assert (R1 : rel s s1 (blk_list (t_blk (m_scheme m)))) by (apply free_text_rel; [exact W|exact Cs|pwl]).
   set (s2 := free_text o (m_userInfo m) s1) in *.
@@ -763,3 +765,4 @@ Proof.
   intros W P E. pose proof (parse_m_no_residue t s0 W) as H. destruct (parse_m t s0) as [r s']. cbn in E. subst r.
   destruct H as (_ & _ & _ & Fl). exact (no_fault_no_fail _ _ P Fl).
 Qed.
+
